@@ -506,93 +506,11 @@ Definition cr_read (c : cfg) (size : N) (r : creader) (p : unreader)
   | None => (inl (takeN size (cbuf r1)), {| cg := cg r1; cactive := cactive r1; cbuf := dropN size (cbuf r1) |}, p1, tr)
   end.
 
-(* ---- Body ----------------------------------------------------------------------------------- *)
-Inductive reader := RLength (len : N) | RChunked (r : creader).
-Record body := { breader : reader; bbuf : bytes }.
-Record conn := { c_body : body; c_unreader : unreader; c_trailers : list header }.
-
+(* ---- Body: generic in the reader behind it ------------------------------------------------------ *)
 Definition maxsize : N := 9223372036854775807.
 Definition getsize (size : option Z) : N :=
   match size with None => maxsize | Some z => if (z <? 0)%Z then maxsize else Z.to_N z end.
 
-(* reader.read(n) on the connection state *)
-Definition reader_read (c : cfg) (n : N) (k : conn) : (bytes + perr) * conn :=
-  match breader (c_body k) with
-  | RLength len =>
-      let '(d, len', p') := lr_read n len (c_unreader k) in
-      (inl d, {| c_body := {| breader := RLength len'; bbuf := bbuf (c_body k) |}; c_unreader := p'; c_trailers := c_trailers k |})
-  | RChunked r =>
-      let '(res, r', p', tr) := cr_read c n r (c_unreader k) in
-      (res, {| c_body := {| breader := RChunked r'; bbuf := bbuf (c_body k) |}; c_unreader := p';
-               c_trailers := match tr with Some t => t | None => c_trailers k end |})
-  end.
-Definition set_bbuf (k : conn) (b : bytes) : conn :=
-  {| c_body := {| breader := breader (c_body k); bbuf := b |}; c_unreader := c_unreader k; c_trailers := c_trailers k |}.
-
-Definition remaining_upper (k : conn) : nat :=      (* an upper bound on the bytes still obtainable: fuel *)
-  (length (u_abs (c_unreader k)) +
-   match breader (c_body k) with
-   | RChunked r => length (cbuf r) + match cg r with GAfterLast _ rest => length rest | _ => 0 end
-   | RLength _ => 0
-   end + 2)%nat.
-
-(* Body.read: "while size > buf.tell(): data = reader.read(1024); if not data: break" *)
-Fixpoint body_fill (c : cfg) (blk : N) (fuel : nat) (size : N) (buf : bytes) (k : conn) : (bytes * conn) * option perr :=
-  match fuel with
-  | O => ((buf, k), Some EOutOfFuel)
-  | S fuel' =>
-      if size <=? blen buf then ((buf, k), None)
-      else match reader_read c blk k with
-           | (inr e, k') => ((buf, k'), Some e)
-           | (inl [], k') => ((buf, k'), None)
-           | (inl d, k') => body_fill c blk fuel' size (buf ++ d) k'
-           end
-  end.
-
-Definition body_read_blk (c : cfg) (blk : N) (size : option Z) (k : conn) : (bytes + perr) * conn :=
-  let size := getsize size in
-  if size =? 0 then (inl [], k) else
-  let buf := bbuf (c_body k) in
-  if size <? blen buf then (inl (takeN size buf), set_bbuf k (dropN size buf))
-  else
-    let '((buf', k'), err) := body_fill c blk (remaining_upper k) size buf k in
-    match err with
-    | Some e => (inr e, set_bbuf k' buf')         (* the exception leaves self.buf as it was filled *)
-    | None => (inl (takeN size buf'), set_bbuf k' (dropN size buf'))
-    end.
-Definition body_read (c : cfg) := body_read_blk c 1024.
-
-(* Body.readline *)
-Definition nl_cut (size : N) (data : bytes) : nat :=
-  match find_char 10 (takeN size data) with
-  | Some i => S i
-  | None => if size <=? blen data then N.to_nat size else O
-  end.
-Fixpoint readline_loop (c : cfg) (blk : N) (fuel : nat) (size : N) (data acc : bytes) (k : conn) : (bytes * conn) * option perr :=
-  match fuel with
-  | O => ((acc, k), Some EOutOfFuel)
-  | S fuel' =>
-      match nl_cut size data with
-      | S i => ((acc ++ firstn (S i) data, set_bbuf k (skipn (S i) data)), None)
-      | O =>
-          let size' := size - blen data in
-          match reader_read c (N.min blk size') k with
-          | (inr e, k') => ((acc ++ data, k'), Some e)
-          | (inl [], k') => ((acc ++ data, k'), None)
-          | (inl d, k') => readline_loop c blk fuel' size' d (acc ++ data) k'
-          end
-      end
-  end.
-Definition body_readline_blk (c : cfg) (blk : N) (size : option Z) (k : conn) : (bytes + perr) * conn :=
-  let size := getsize size in
-  if size =? 0 then (inl [], k) else
-  let data := bbuf (c_body k) in
-  let k0 := set_bbuf k [] in
-  let '((out, k'), err) := readline_loop c blk (remaining_upper k) size data [] k0 in
-  match err with Some e => (inr e, k') | None => (inl out, k') end.
-Definition body_readline (c : cfg) := body_readline_blk c 1024.
-
-(* Body.readlines: read everything, split after each "\n" *)
 Fixpoint split_lines_aux (cur : bytes) (l : bytes) : list bytes :=
   match l with
   | [] => match cur with [] => [] | _ => [rev cur] end
@@ -603,36 +521,124 @@ Definition split_lines (l : bytes) : list bytes := split_lines_aux [] l.
 Inductive call := Read (size : option Z) | Readline (size : option Z) | Readlines | Next.
 Inductive callres := RBytes (b : bytes) | RLines (l : list bytes) | RStopIter | RExc (e : perr).
 
-Definition do_call (c : cfg) (cl : call) (k : conn) : callres * conn :=
-  match cl with
-  | Read s => match body_read c s k with (inl b, k') => (RBytes b, k') | (inr e, k') => (RExc e, k') end
-  | Readline s => match body_readline c s k with (inl b, k') => (RBytes b, k') | (inr e, k') => (RExc e, k') end
-  | Readlines => match body_read c None k with (inl b, k') => (RLines (split_lines b), k') | (inr e, k') => (RExc e, k') end
-  | Next => match body_readline c None k with
-            | (inl [], k') => (RStopIter, k')
-            | (inl b, k') => (RBytes b, k')
-            | (inr e, k') => (RExc e, k')
+Definition nl_cut (size : N) (data : bytes) : nat :=
+  match find_char 10 (takeN size data) with
+  | Some i => S i
+  | None => if size <=? blen data then N.to_nat size else O
+  end.
+
+Section Body.
+  Variable S : Type.                                       (* state of the reader behind the Body *)
+  Variable rd : N -> S -> (bytes + perr) * S.              (* reader.read(n), n > 0 *)
+  Variable fuel_of : S -> nat.                             (* an upper bound on the bytes still obtainable *)
+
+  Definition bstate := (bytes * S)%type.                   (* Body.buf, reader *)
+
+  (* Body.read: "while size > buf.tell(): data = reader.read(1024); if not data: break" *)
+  Fixpoint body_fill (blk : N) (fuel : nat) (size : N) (buf : bytes) (s : S) : (bytes * S) * option perr :=
+    match fuel with
+    | O => ((buf, s), Some EOutOfFuel)
+    | Datatypes.S fuel' =>
+        if size <=? blen buf then ((buf, s), None)
+        else match rd blk s with
+             | (inr e, s') => ((buf, s'), Some e)
+             | (inl [], s') => ((buf, s'), None)
+             | (inl d, s') => body_fill blk fuel' size (buf ++ d) s'
+             end
+    end.
+
+  Definition body_read_blk (blk : N) (size : option Z) (b : bstate) : (bytes + perr) * bstate :=
+    let size := getsize size in
+    if size =? 0 then (inl [], b) else
+    let buf := fst b in
+    if size <? blen buf then (inl (takeN size buf), (dropN size buf, snd b))
+    else
+      let '((buf', s'), err) := body_fill blk (fuel_of (snd b)) size buf (snd b) in
+      match err with
+      | Some e => (inr e, (buf', s'))                 (* the exception leaves self.buf as it was filled *)
+      | None => (inl (takeN size buf'), (dropN size buf', s'))
+      end.
+
+  (* Body.readline *)
+  Fixpoint readline_loop (blk : N) (fuel : nat) (size : N) (data acc : bytes) (s : S) : (bytes * bstate) * option perr :=
+    match fuel with
+    | O => ((acc, ([], s)), Some EOutOfFuel)
+    | Datatypes.S fuel' =>
+        match nl_cut size data with
+        | Datatypes.S i => ((acc ++ firstn (Datatypes.S i) data, (skipn (Datatypes.S i) data, s)), None)
+        | O =>
+            let size' := size - blen data in
+            match rd (N.min blk size') s with
+            | (inr e, s') => ((acc ++ data, ([], s')), Some e)
+            | (inl [], s') => ((acc ++ data, ([], s')), None)
+            | (inl d, s') => readline_loop blk fuel' size' d (acc ++ data) s'
             end
+        end
+    end.
+  Definition body_readline_blk (blk : N) (size : option Z) (b : bstate) : (bytes + perr) * bstate :=
+    let size := getsize size in
+    if size =? 0 then (inl [], b) else
+    let '((out, b'), err) := readline_loop blk (fuel_of (snd b)) size (fst b) [] (snd b) in
+    match err with Some e => (inr e, b') | None => (inl out, b') end.
+
+  Definition body_read := body_read_blk 1024.
+  Definition body_readline := body_readline_blk 1024.
+
+  Definition do_call (cl : call) (b : bstate) : callres * bstate :=
+    match cl with
+    | Read s => match body_read s b with (inl d, b') => (RBytes d, b') | (inr e, b') => (RExc e, b') end
+    | Readline s => match body_readline s b with (inl d, b') => (RBytes d, b') | (inr e, b') => (RExc e, b') end
+    | Readlines => match body_read None b with (inl d, b') => (RLines (split_lines d), b') | (inr e, b') => (RExc e, b') end
+    | Next => match body_readline None b with
+              | (inl [], b') => (RStopIter, b')
+              | (inl d, b') => (RBytes d, b')
+              | (inr e, b') => (RExc e, b')
+              end
+    end.
+
+  (* Parser.__next__: discard the unread body: data = body.read(8192); while data: ... *)
+  Fixpoint drain (fuel : nat) (b : bstate) : bstate * option perr :=
+    match fuel with
+    | O => (b, Some EOutOfFuel)
+    | Datatypes.S fuel' =>
+        match body_read (Some 8192%Z) b with
+        | (inr e, b') => (b', Some e)
+        | (inl [], b') => (b', None)
+        | (inl _, b') => drain fuel' b'
+        end
+    end.
+End Body.
+Arguments body_fill {S}. Arguments body_read_blk {S}. Arguments readline_loop {S}. Arguments body_readline_blk {S}.
+Arguments body_read {S}. Arguments body_readline {S}. Arguments do_call {S}. Arguments drain {S}.
+
+(* ---- the two concrete readers as one state type --------------------------------------------------- *)
+Inductive reader := RLength (len : N) | RChunked (r : creader).
+Record conn := { c_reader : reader; c_unreader : unreader; c_trailers : list header }.
+
+Definition reader_read (c : cfg) (n : N) (k : conn) : (bytes + perr) * conn :=
+  match c_reader k with
+  | RLength len =>
+      let '(d, len', p') := lr_read n len (c_unreader k) in
+      (inl d, {| c_reader := RLength len'; c_unreader := p'; c_trailers := c_trailers k |})
+  | RChunked r =>
+      let '(res, r', p', tr) := cr_read c n r (c_unreader k) in
+      (res, {| c_reader := RChunked r'; c_unreader := p';
+               c_trailers := match tr with Some t => t | None => c_trailers k end |})
   end.
 
-(* Parser.__next__: discard the unread body: data = body.read(8192); while data: ... *)
-Fixpoint drain (c : cfg) (fuel : nat) (k : conn) : conn * option perr :=
-  match fuel with
-  | O => (k, Some EOutOfFuel)
-  | S fuel' =>
-      match body_read c (Some 8192%Z) k with
-      | (inr e, k') => (k', Some e)
-      | (inl [], k') => (k', None)
-      | (inl _, k') => drain c fuel' k'
-      end
-  end.
+Definition remaining_upper (k : conn) : nat :=      (* an upper bound on the bytes still obtainable: fuel *)
+  (length (u_abs (c_unreader k)) +
+   match c_reader k with
+   | RChunked r => length (cbuf r) + match cg r with GAfterLast _ rest => length rest | _ => 0 end
+   | RLength _ => 0
+   end + 2)%nat.
 
-Definition init_conn (r : request) (p : unreader) : conn :=
-  {| c_body := {| breader := match r_framing r with
-                            | FChunked => RChunked {| cg := GStart; cactive := true; cbuf := [] |}
-                            | FLength n => RLength n
-                            end; bbuf := [] |};
-     c_unreader := p; c_trailers := [] |}.
+Definition init_conn (r : request) (p : unreader) : bytes * conn :=
+  ([], {| c_reader := match r_framing r with
+                      | FChunked => RChunked {| cg := GStart; cactive := true; cbuf := [] |}
+                      | FLength n => RLength n
+                      end;
+          c_unreader := p; c_trailers := [] |}).
 
 (* ---- observation ------------------------------------------------------------------------------ *)
 Definition enc_header (h : header) : list Z := enc_bytes (fst h) ++ enc_bytes (snd h).
@@ -649,15 +655,21 @@ Definition enc_callres (r : callres) : list Z :=
   | RExc e => [4%Z; perr_code e]
   end.
 
-Fixpoint run_calls (c : cfg) (cls : list call) (k : conn) : list Z * conn * option perr :=
-  match cls with
-  | [] => ([], k, None)
-  | cl :: t => let '(r, k') := do_call c cl k in
-               match r with
-               | RExc e => (enc_callres r, k', Some e)          (* the application does not catch it *)
-               | _ => let '(o, k'', e) := run_calls c t k' in (enc_callres r ++ o, k'', e)
-               end
-  end.
+Section RunCalls.
+  Variable S : Type.
+  Variable rd : N -> S -> (bytes + perr) * S.
+  Variable fuel_of : S -> nat.
+  Fixpoint run_calls (cls : list call) (b : bytes * S) : list Z * (bytes * S) * option perr :=
+    match cls with
+    | [] => ([], b, None)
+    | cl :: t => let '(r, b') := do_call rd fuel_of cl b in
+                 match r with
+                 | RExc e => (enc_callres r, b', Some e)          (* the application does not catch it *)
+                 | _ => let '(o, b'', e) := run_calls t b' in (enc_callres r ++ o, b'', e)
+                 end
+    end.
+End RunCalls.
+Arguments run_calls {S}.
 
 (* iterate the parser over the connection; progs = the read program of each request *)
 Fixpoint run_conn (c : cfg) (x : ext) (fuel : nat) (n : N) (progs : list (list call)) (p : unreader) : list Z :=
@@ -668,19 +680,19 @@ Fixpoint run_conn (c : cfg) (x : ext) (fuel : nat) (n : N) (progs : list (list c
       | inr e => [200%Z; perr_code e]
       | inl (r, p1) =>
           let prog := hd [] progs in
-          let '(o, k, err) := run_calls c prog (init_conn r p1) in
+          let '(o, b, err) := run_calls (reader_read c) remaining_upper prog (init_conn r p1) in
           enc_request r ++ o ++
           match err with
           | Some e => [200%Z; perr_code e]
           | None =>
               if should_close r then
-                enc_list enc_header (c_trailers k) ++ [201%Z]
+                enc_list enc_header (c_trailers (snd b)) ++ [201%Z]
               else
-                let '(k', derr) := drain c (S (remaining_upper k)) k in
+                let '(b', derr) := drain (reader_read c) remaining_upper (S (length (fst b) + remaining_upper (snd b))) b in
                 match derr with
                 | Some e => [200%Z; perr_code e]
-                | None => enc_list enc_header (c_trailers k') ++ [Z.of_nat (length (u_abs (c_unreader k')))]
-                          ++ run_conn c x fuel' (n + 1) (tl progs) (c_unreader k')
+                | None => enc_list enc_header (c_trailers (snd b')) ++ [Z.of_nat (length (u_abs (c_unreader (snd b'))))]
+                          ++ run_conn c x fuel' (n + 1) (tl progs) (c_unreader (snd b'))
                 end
           end
       end
